@@ -10,7 +10,7 @@
     aggregates of the plot's x-domain and the keyword filters are GENERATED from
     qexpy/plotting/plotobjects.py and plotting.py on every run (Gen/PlotGen.v). *)
 From Coq Require Import List ZArith QArith Qabs Bool String Permutation.
-From QV Require Import Model.PlotBase Gen.PlotGen Model.Plot Proofs.Plot.
+From QV Require Import Model.PlotBase Gen.PlotGen Model.Plot Proofs.Plot Model.PlotHistory Proofs.PlotHistory.
 Import ListNotations.
 Open Scope Q_scope.
 
@@ -178,4 +178,43 @@ Proof.
   cbv zeta. split; [repeat split|]. split; [reflexivity|]. split; [reflexivity|].
   split; [vm_compute; reflexivity|]. split; [vm_compute; reflexivity|].
   split; [eexists; split; [vm_compute; reflexivity|reflexivity]|]. vm_compute. reflexivity.
+Qed.
+
+(** histories: after ANY sequence of plot / hist / fit calls, switch, label and x-range changes and
+    renderings (each of which leaves its x-domain behind in the functions that have no range of
+    their own, where the next computation of the domain reads it back), a rendering shows exactly
+    [savefig] of the objects and settings as they are then *)
+Theorem C19_history : forall ops, Forall wf_op ops ->
+  let st := prun ops new_plot in
+  ps_last (pstep st Render) = Some (savefig (ps_cfg st) (added ops)) /\
+  objs_of (ps_slots st) = added ops.
+Proof. exact history_lemma. Qed.
+Print Assumptions C19_history.
+
+(** non-vacuity of C19_history: a data set on [1, 3] and a function without its own range are
+    rendered (the function is left with the range [1, 3]); a second data set on [0, 10] is added;
+    the next rendering draws the function over [0, 10] *)
+Example C19_history_nonvacuous :
+  let d1 := OData {| do_ds := {| ds_x := [1; 3]; ds_y := [1; 2]; ds_xe := [0; 0]; ds_ye := [0; 0]; ds_name := [];
+                                ds_xname := []; ds_yname := []; ds_xunit := []; ds_yunit := [] |};
+                    do_range := None; do_label := None |} in
+  let d2 := OData {| do_ds := {| ds_x := [0; 10]; ds_y := [1; 2]; ds_xe := [0; 0]; ds_ye := [0; 0]; ds_name := [];
+                                ds_xname := []; ds_yname := []; ds_xunit := []; ds_yunit := [] |};
+                    do_range := None; do_label := None |} in
+  let f := OFunc {| fo_f := fun x => (x, 0); fo_spec := false; fo_range := None;
+                    fo_xname := []; fo_yname := []; fo_xunit := []; fo_yunit := []; fo_label := [] |} in
+  let ops := [Add d1; Add f; Render; Add d2] in
+  Forall wf_op ops /\
+  map sl_left (ps_slots (prun ops new_plot)) = [None; Some (1, 3); None] /\
+  match ps_last (pstep (prun ops new_plot) Render) with
+  | Some (Rendered fig) =>
+      match fig_objs fig with
+      | [_; DrFunc c; _] => nth 0 (c_x c) 0 == 0 /\ nth 99 (c_x c) 0 == 10
+      | _ => False
+      end
+  | _ => False
+  end.
+Proof.
+  cbv zeta. split; [repeat constructor; simpl; auto|]. split; [vm_compute; reflexivity|].
+  vm_compute. split; reflexivity.
 Qed.
